@@ -4,6 +4,12 @@ use crate::util::*;
 use crate::{Opts, Outcome};
 use kmer::kmer::KmerGenerator;
 
+// the inverse table (column -> code) whatever container the function returns it in (a map keyed by column or a dense vector)
+trait ColTable { fn col(&self, i: usize) -> Option<u64>; fn ncols(&self) -> usize; }
+impl ColTable for std::collections::HashMap<usize, u64> { fn col(&self, i: usize) -> Option<u64> { self.get(&i).copied() } fn ncols(&self) -> usize { self.len() } }
+impl ColTable for std::collections::BTreeMap<usize, u64> { fn col(&self, i: usize) -> Option<u64> { self.get(&i).copied() } fn ncols(&self) -> usize { self.len() } }
+impl ColTable for Vec<u64> { fn col(&self, i: usize) -> Option<u64> { self.get(i).copied() } fn ncols(&self) -> usize { self.len() } }
+
 fn c03_k(k: usize) -> Option<Vec<(String, String)>> {
     let got = guarded(move || KmerGenerator::kmer_pos_maps(k));
     let (pm, pk, count) = match got {
@@ -19,12 +25,12 @@ fn c03_k(k: usize) -> Option<Vec<(String, String)>> {
         for x in 0..n {
             if is_canon(x as u64, k) {
                 if pm[x] != rank { why = format!("canonical code {} ({}) maps to {}, rank is {}", x, text_of(x as u64, k), pm[x], rank); break; }
-                if pk.get(&rank) != Some(&(x as u64)) { why = format!("index {} maps to {:?}, expected code {}", rank, pk.get(&rank), x); break; }
+                if pk.col(rank) != Some(x as u64) { why = format!("index {} maps to {:?}, expected code {}", rank, pk.col(rank), x); break; }
                 rank += 1;
             } else if pm[x] != 0 { why = format!("non-canonical code {} has entry {}", x, pm[x]); break; }
         }
     }
-    if why.is_empty() && (count != rank || pk.len() != rank) { why = format!("count {} / map size {} but {} canonical k-mers", count, pk.len(), rank); }
+    if why.is_empty() && (count != rank || pk.ncols() != rank) { why = format!("count {} / map size {} but {} canonical k-mers", count, pk.ncols(), rank); }
     if why.is_empty() && count != expect_count { why = format!("count {} differs from the closed form {}", count, expect_count); }
     if why.is_empty() { None } else { Some(vec![("k".into(), k.to_string()), ("why".into(), why)]) }
 }
